@@ -181,6 +181,24 @@ def gen_ring(rng, resolved=True, kinds=None):
             li = rng.choice(cands)
             comps.append({"kind": "time", "start": 0, "steps": [rng.choice([1, 2, 3])]})
             links.append({"src": links[li]["src"], "out": 0, "dst": len(comps) - 1, "ads": [], "via": li})
+    # two tails on one pass-through adapter next to a ring link that starts with a no-branch adapter (DelayToPull / a
+    # time-caching adapter) at the same output: legal — the no-branch adapter itself has one target —, linked before or
+    # after the ring link
+    if rng.random() < 0.25:
+        cands = [li for li, l in enumerate(links) if comps[l["src"]]["kind"] == "time" and l["ads"]
+                 and l["ads"][0][0] in ("dpull", "lin", "prev", "step", "next") and "via" not in l]
+        if cands:
+            li = rng.choice(cands)
+            src = links[li]["src"]
+            comps.append({"kind": "time", "start": 0, "steps": [rng.choice([1, 2, 3])]})
+            comps.append({"kind": "time", "start": 0, "steps": [rng.choice([1, 2, 3])]})
+            tail = {"src": src, "out": 0, "dst": len(comps) - 2, "ads": [["scale"]]}
+            pos = li if rng.random() < 0.6 else len(links)
+            links.insert(pos, tail)
+            for l in links:
+                if "via" in l and l["via"] >= pos:
+                    l["via"] += 1
+            links.append({"src": src, "out": 0, "dst": len(comps) - 1, "ads": [], "via": pos})
     # start offsets (a component behind a delay adapter that starts later than its feeder: the delay adapter's
     # clamp is the *feeder's* start)
     if rng.random() < 0.3:
